@@ -43,8 +43,9 @@ func TestVerifC17Api(t *testing.T) {
 		c02MakeLog("sessions-only", [][]string{{"+A", "+B", "-A", "+C", "-C", "+D"}}, []int{0}, []int{0}),
 	}
 	type job struct {
-		log c02Log
-		p   int
+		log   c02Log
+		p     int
+		quiet bool // the node stays a raft Follower (otherwise it is a Candidate after its election timeout)
 	}
 	var jobs []job
 	for _, l := range logs {
@@ -53,7 +54,7 @@ func TestVerifC17Api(t *testing.T) {
 			n += len(ch.Entries)
 		}
 		for p := 0; p <= n; p++ {
-			jobs = append(jobs, job{l, p})
+			jobs = append(jobs, job{l, p, false}, job{l, p, true})
 		}
 	}
 	for ji, j := range jobs {
@@ -65,9 +66,21 @@ func TestVerifC17Api(t *testing.T) {
 		for _, ch := range j.log.Chunks {
 			entries = append(entries, ch.Entries...)
 		}
-		n, err := vStartFollower(fmt.Sprintf("%s/f%d", base, ji))
+		start, wantState := vStartFollower, raft.Candidate
+		if j.quiet {
+			start, wantState = vStartQuietFollower, raft.Follower
+		}
+		n, err := start(fmt.Sprintf("%s/f%d", base, ji))
 		if err != nil {
 			t.Fatal(err)
+		}
+		for k := 0; k < 5000 && n.raft.State() != wantState; k++ {
+			time.Sleep(time.Millisecond)
+		}
+		if n.raft.State() != wantState {
+			res.HarnessErr = fmt.Sprintf("HARNESS: node is in raft state %v, expected %v", n.raft.State(), wantState)
+			n.Stop()
+			break
 		}
 		w := &c02World{}
 		applied := uint64(0)
@@ -76,7 +89,7 @@ func TestVerifC17Api(t *testing.T) {
 			applied = e.Id
 		}
 		res.Sequences++
-		seq := []string{"c17api", j.log.Name, strconv.Itoa(j.p)}
+		seq := []string{"c17api", j.log.Name, strconv.Itoa(j.p), wantState.String()}
 		// ground truth from the log itself
 		type sess struct {
 			idx     uint64
@@ -123,7 +136,7 @@ func TestVerifC17Api(t *testing.T) {
 			}
 			for route, r := range ask(s.session) {
 				res.Ops++
-				res.EndStates[fmt.Sprintf("%s: %s -> %d", state, route, r.Code)]++
+				res.EndStates[fmt.Sprintf("%v node, %s: %s -> %d", wantState, state, route, r.Code)]++
 				switch state {
 				case "not yet seen":
 					if r.Code == 404 {
